@@ -105,6 +105,14 @@ def transcript_of(data: dict, world: dict) -> dict:
     except Exception as e:
         notes.append(f"prefix raised {type(e).__name__}: {str(e)[:120]}")
 
+    if data.get("directed"):
+        # directed process histories (sim/directed.py): subject script + discarded calls on
+        # procedures that share Syms / statement objects with the subject
+        from . import directed
+
+        out = directed.transcript(data, world)
+        out["notes"] = notes + out["notes"]
+        return out
     sdata = dict(data)
     sdata["checks"] = {}
     sdata["props"] = []
